@@ -194,3 +194,80 @@ Proof.
   replace (zget n (n_brokers nr)) with (@None addr); [reflexivity|].
   symmetry. apply (dget_none_notin Z.eqb Z.eqb_eq). exact Hn.
 Qed.
+
+(* ---- what the lookups of a call ask for ---------------------------------------------------------- *)
+(* every lookup a broker-aware call performs is a metadata request for the topic of one of ITS payloads (a
+   coordinator request for ITS group); [le_kind; le_id] are part of the trace compared with the implementation,
+   where they are parsed from the request on the wire *)
+Definition asks (group : option Z) (ps : list payload) (e : loadev) : Prop :=
+  match group with
+  | None => le_kind e = 0 /\ exists p, In p ps /\ le_id e = p_topic p
+  | Some g => le_kind e = 1 /\ le_id e = g
+  end.
+
+Lemma resolve_leader_asks : forall st p loads st' loads' evs res,
+  resolve_leader st p loads = (st', loads', evs, res) -> Forall (fun e => le_kind e = 0 /\ le_id e = p_topic p) evs.
+Proof.
+  intros st p loads st' loads' evs res H. unfold resolve_leader in H.
+  assert (Hfin : forall s1 (l1 : list load) (e1 : list loadev) (err : option ekind),
+            Forall (fun e => le_kind e = 0 /\ le_id e = p_topic p) e1 ->
+            match err with
+            | Some e => (s1, l1, e1, inr e)
+            | None => match leader_of s1 (p_key p) with
+                      | None => (s1, l1, e1, inr EPartitionUnavailable)
+                      | Some None => (s1, l1, e1, inr ELeaderUnavailable)
+                      | Some (Some bm) => (s1, l1, e1, inl (fst bm))
+                      end
+            end = (st', loads', evs, res) -> Forall (fun e => le_kind e = 0 /\ le_id e = p_topic p) evs).
+  { intros s1 l1 e1 err F1 H1. destruct err; [inversion H1; subst; exact F1|].
+    destruct (leader_of s1 (p_key p)) as [[bm|]|]; inversion H1; subst; exact F1. }
+  assert (Hone : forall lg gn rc, Forall (fun e => le_kind e = 0 /\ le_id e = p_topic p)
+                   [{| le_kind := 0; le_id := p_topic p; le_log := lg; le_gone := gn; le_res := rc |}]).
+  { intros. constructor; [split; reflexivity|constructor]. }
+  destruct (leader_of st (p_key p)) as [[bm|]|].
+  - exact (Hfin st loads [] None (Forall_nil _) H).
+  - destruct loads as [|[u r|u c] loads0]; try exact (Hfin st _ [] (Some EScript) (Forall_nil _) H).
+    destruct (load_metadata st false u r) as [[[s1 log1] gone1] res1].
+    destruct res1; first [exact (Hfin s1 _ _ None (Hone _ _ _) H) | exact (Hfin s1 _ _ (Some _) (Hone _ _ _) H)].
+  - destruct loads as [|[u r|u c] loads0]; try exact (Hfin st _ [] (Some EScript) (Forall_nil _) H).
+    destruct (load_metadata st false u r) as [[[s1 log1] gone1] res1].
+    destruct res1; first [exact (Hfin s1 _ _ None (Hone _ _ _) H) | exact (Hfin s1 _ _ (Some _) (Hone _ _ _) H)].
+Qed.
+
+Lemma resolve_coord_asks : forall st g loads st' loads' evs res,
+  resolve_coord st g loads = (st', loads', evs, res) -> Forall (fun e => le_kind e = 1 /\ le_id e = g) evs.
+Proof.
+  intros st g loads st' loads' evs res H. unfold resolve_coord in H.
+  destruct (dget Z.eqb g (s_g2c st)); [inversion H; constructor|].
+  destruct loads as [|[u r|u c] loads0]; try (inversion H; constructor).
+  destruct (load_coordinator st g u c) as [[s1 log1] ok].
+  destruct ok; [destruct (dget Z.eqb g (s_g2c s1))|]; inversion H; subst; (constructor; [split; reflexivity|constructor]).
+Qed.
+
+Lemma resolve_loop_asks : forall ps all st group loads acc evs st' evs' res,
+  (forall p, In p ps -> In p all) -> Forall (asks group all) evs ->
+  resolve_loop st group ps loads acc evs = (st', evs', res) -> Forall (asks group all) evs'.
+Proof.
+  induction ps as [|p rest IH]; intros all st group loads acc evs st' evs' res Hsub Hev H; simpl in H.
+  - inversion H; subst. exact Hev.
+  - assert (Hnew : forall s1 l1 ev r1, resolve_one st group p loads = (s1, l1, ev, r1) -> Forall (asks group all) (evs ++ ev)).
+    { intros s1 l1 ev r1 E. apply Forall_app. split; [exact Hev|]. destruct group as [g|]; simpl in E.
+      - apply resolve_coord_asks in E. exact E.
+      - apply resolve_leader_asks in E. eapply Forall_impl; [|exact E]. intros e [Hk Hi]. split; [exact Hk|].
+        exists p. split; [apply Hsub; left; reflexivity|exact Hi]. }
+    destruct (resolve_one st group p loads) as [[[st1 loads1] ev] [n|e]] eqn:Er.
+    + eapply IH; [|eapply Hnew; reflexivity|exact H]. intros q Hq. apply Hsub. right. exact Hq.
+    + inversion H; subst. eapply Hnew. reflexivity.
+Qed.
+
+Lemma aware_loads_ask : forall st group expect ps loads outs,
+  Forall (asks group ps) (a_loads (aware st group expect ps loads outs)).
+Proof.
+  intros st group expect ps loads outs. unfold aware. destruct ps as [|p0 ps0]; [constructor|].
+  destruct (resolve_loop st group (p0 :: ps0) loads [] []) as [[st1 evs] res] eqn:Er.
+  assert (Hev : Forall (asks group (p0 :: ps0)) evs).
+  { eapply resolve_loop_asks; [|constructor|exact Er]. auto. }
+  destruct res as [resolved|e]; [|exact Hev].
+  destruct (send_requests st1 _ outs []) as [[st2 sent] [e|]]; [exact Hev|].
+  destruct (collect expect _ _ [] []) as [acc failed]. destruct failed; exact Hev.
+Qed.
